@@ -99,13 +99,15 @@ def _recipe(kind: str, variant: str, k: int, seed: int) -> Dict[str, Any]:
     return {"kind": kind, "variant": variant, "init": init, "wseed": seed + k, "acts": acts, "cks": cks, "src": "recipe"}
 
 
-def _corruption_sanity(traces: List[Dict[str, Any]]) -> None:
+def _corruption_sanity(traces: List[Dict[str, Any]], strict: bool = True) -> None:
     """non-vacuity of the trace specification: corrupted copies of a recorded trace must be rejected with the right clause"""
     import copy
     base = next((t for t in traces if any(e["act"]["a"] == "ckpt" and e["ck"]["obs"] and not e["ck"]["obs"][0]["err_o"]
                                            for e in t["ev"])), None)
     if base is None:
-        raise MachineryError("C17: no trace with a completed checkpoint experiment")
+        if strict:
+            raise MachineryError("C17: no trace with a completed checkpoint experiment")
+        return
     k = next(i for i, e in enumerate(base["ev"]) if e["act"]["a"] == "ckpt" and e["ck"]["obs"])
     muts = []
     t = copy.deepcopy(base); t["ev"][k]["ck"]["obs"][0]["r"]["out"] += 1000; muts.append(("C17.output", t))
@@ -244,9 +246,12 @@ def run(tier: str, seed: int, replay=None) -> int:
         "checkpoints_configuration_after_load": sum(1 for c in cks_all if not c["cfg_first"]),
         "history_calls_that_raised": sum(1 for t in traces for e in t["ev"] if e["err"]),
     })
-    _corruption_sanity(traces)
-    R.validate("CheckpointTrace", "CheckpointTrace", traces, scen, nontrivial=lambda s: len(s["acts"]) > 0, key=_key,
-               label="shortest histories of sampled states + random histories", chunk=300, workers=8)
+    verdicts = R.validate("CheckpointTrace", "CheckpointTrace", traces, scen, nontrivial=lambda s: len(s["acts"]) > 0,
+                          key=_key, label="shortest histories of sampled states + random histories", chunk=300, workers=8)
+    # corrupted copies of ACCEPTED traces must be rejected (skipped only if the tree under test has no accepted trace)
+    accepted = [t for t, v in zip(traces, verdicts) if v == "ok" or v.startswith(("known:", "drift:"))]
+    if accepted:
+        _corruption_sanity(accepted, strict=len(accepted) == len(traces))
     R.evaluations = len(cks_all)
     R.exhaustive = False
     return R.finish()
